@@ -7,5 +7,6 @@ CONSTANTS
   BinAPats <- MC_QuickBinAPats
   BinBPats <- MC_QuickBinBPats
   Scalars <- MC_Scalars
+  TinyBMaxN = 2
   TwoFull = FALSE
 INVARIANTS TypeOK Contract Abstraction Emit
